@@ -171,7 +171,7 @@ def _validated(sp):
 def ext_descriptors(tier):
     """("ext", (ext index | -1-base index, ...), methods)"""
     T = tier == "thorough"
-    nb = len(EXT_BASE) if T else 3          # partners of an extension rule: plain base shapes
+    nb = len(EXT_BASE) if T else 5          # partners of an extension rule: plain base shapes
     ext_ids = list(range(len(EXT))) if T else EXT_QUICK_IDS
     for i in ext_ids:
         yield ("ext", (i,), (None,))
@@ -256,7 +256,7 @@ def map_descriptors(tier):
     red2 = {IDX[x] for x in REDUCED_THOROUGH}
     for i, j in itertools.combinations(range(n), 2):
         for q, ms in enumerate(ASSIGN[(tier, 2)]):
-            if not T and q >= 2 and not (i in red2 and j in red2):
+            if not T and q >= 2 and not (i in red2 or j in red2):
                 continue                   # quick: mixed any-method / restricted pairs over the reduced universe only
             yield (i, j), ms
     for i in range(n):                     # the same pattern twice, split by method
@@ -267,7 +267,7 @@ def map_descriptors(tier):
     for combo in itertools.combinations(red, 3):
         for ms in ASSIGN[(tier, 3)]:
             yield combo, ms
-    fams = FAMILIES if T else {k: FAMILIES[k] for k in ("twins", "prefix")}
+    fams = FAMILIES
     sizes = (4, 5, 6) if T else (4,)
     for _name, fam in fams.items():
         ids = [IDX[s] for s in fam]
@@ -590,8 +590,8 @@ def finalize(R, tier):
     if R.counts["decided"] < 1000:
         raise core.Broken("vacuity: the priority order hardly ever decided")
     return {
-        "bound": ("all maps <=2 of 43 shapes, <=3 of 12, size-4 subsets of 2 families, 183 extension rules alone and "
-                  "with 3 base shapes" if tier == "quick" else
+        "bound": ("all maps <=2 of 43 shapes, <=3 of 12, size-4 subsets of 4 families, 183 extension rules alone and "
+                  "with 5 base shapes" if tier == "quick" else
                   "all maps <=2 of 43 shapes, <=3 of 22, size 4-6 subsets of 4 families, 282 extension rules alone, "
                   "with 8 base shapes and (183 of them) with each other") + "; every insertion order",
         "exhaustive": True,
